@@ -200,7 +200,7 @@ func runCtxBlocking(c *Ctx) {
 				return true
 			})
 			if len(ops) == 0 && n == 0 {
-				c.OK(fname+"/no-channel-ops", fr.Decl.Pos(), "no channel operation in this function")
+				c.OKTrivial(fname+"/no-channel-ops", fr.Decl.Pos(), "no channel operation in this function")
 			}
 		})
 	}
